@@ -253,6 +253,13 @@ func (e *Eng) actPARPush() {
 		form.Del("redirect_uri")
 		e.label("par-push-without-redirect_uri")
 	}
+	pushedRedirect := form.Get("redirect_uri") != ""
+	verifier := ""
+	if rapid.Bool().Draw(t, "pushWithPKCE") {
+		verifier = "pushed-verifier-" + strings.Repeat("p", 40)
+		form.Set("code_challenge", h.PKCES256(verifier))
+		form.Set("code_challenge_method", "S256")
+	}
 	pushCarriesRequestURI := rapid.IntRange(0, 7).Draw(t, "pushCarriesRequestURI") == 0
 	if pushCarriesRequestURI {
 		form.Set("request_uri", rapid.SampledFrom([]string{"urn:ietf:params:oauth:request_uri:abc", "https://rp.example/request.jwt", "x"}).Draw(t, "innerRequestURI"))
@@ -293,6 +300,10 @@ func (e *Eng) actPARPush() {
 	g := e.newGrant(client, "par", scopes, nil, "")
 	g.Redirect = redirectURI
 	g.Extra["state"] = state
+	g.Extra["verifier"] = verifier
+	if !pushedRedirect {
+		g.Extra["redirect-not-pushed"] = "1"
+	}
 	p := e.addCred(g, "par", res.RequestURI, "authz", 0, time.Duration(res.ExpiresIn)*time.Second)
 	for _, o := range e.pool("par") {
 		if o != p && o.Val == p.Val {
@@ -362,6 +373,9 @@ func (e *Eng) actPARUse() {
 		q.Set("scope", "openid offline a b")
 		q.Set("redirect_uri", "https://rp.example/cb2")
 		q.Set("response_type", "token")
+		q.Set("nonce", "query-nonce-0123456789")
+		q.Set("code_challenge", h.PKCES256("query-verifier-"+strings.Repeat("q", 40)))
+		q.Set("code_challenge_method", "S256")
 		e.label("par-use-with-conflicting-query")
 	}
 	subject := fmt.Sprintf("user-%d", g.N)
@@ -385,6 +399,19 @@ func (e *Eng) actPARUse() {
 		}
 		ng := e.newGrant(g.Client, "code", g.Scopes, nil, subject)
 		ng.Redirect = redirectURI
+		ng.Extra["verifier"] = g.Extra["verifier"]
+		ng.Extra["par"] = "1"
+		if conflict && g.Extra["redirect-not-pushed"] == "1" {
+			// redirect_uri was not pushed: the response still goes to the single registered URI, but the form value
+			// the query ADDED is what the code is bound to at the token endpoint
+			ng.Redirect = "https://rp.example/cb2"
+		}
+		if conflict && g.Extra["verifier"] == "" {
+			// nothing about PKCE was pushed: the query may ADD a challenge (keys that were not pushed are not
+			// protected by the statement), and the code is then bound to it
+			ng.Extra["verifier"] = "query-verifier-" + strings.Repeat("q", 40)
+			ng.Extra["par"] = "query-added-pkce"
+		}
 		e.addCred(ng, "code", res.Code, "authz", 0, e.codeLife)
 	}
 	if has("unspecified") {
